@@ -350,9 +350,10 @@ structure PrintState where
 def PrintState.new : PrintState :=
   { printerType := .print, fileHandle := 0, formatString := none, skipNewLine := false, formatIndex := 0 }
 
-/-- `PrintState::set_printer_type` (= `reset`, which leaves the skip-newline flag alone, then the type). -/
+/-- `PrintState::set_printer_type` (= `reset`, which also clears the skip-newline flag: a statement starts with no
+separator pending, then the type). -/
 def PrintState.setPrinterType (ps : PrintState) (t : PrinterType) : PrintState :=
-  { ps with printerType := t, fileHandle := 0, formatString := none, formatIndex := 0 }
+  { ps with printerType := t, fileHandle := 0, formatString := none, formatIndex := 0, skipNewLine := false }
 
 /-- The seven instructions; where the code reads register A the instruction carries the value found there. -/
 inductive Instr where
@@ -482,5 +483,82 @@ def lower (s : Stmt) : List Instr :=
   lowerTarget s.target ++ [.setFormatStringFromA (s.format.getD (.int 0))] ++ s.args.map lowerArg ++ [.printEnd]
 
 def lowerProgram (p : List Stmt) : List Instr := p.flatMap lower
+
+/-! ## PRINT lists that call a FUNCTION which itself prints: `main.rs` `PushRet` / `PopRet`
+
+While the items of a PRINT statement are evaluated, a user FUNCTION may run, and its body may execute complete PRINT
+statements of its own.  The interpreter saves the `PrintState` of the interrupted statement at `PushRet`
+(`saved_print_states.push`) and restores it at `PopRet`; every statement begins by resetting the state
+(`set_printer_type`). -/
+
+/-- Print instructions plus the two call instructions that touch the `PrintState`. -/
+inductive SInstr where
+  | base (i : Instr)
+  | pushRet
+  | popRet
+  deriving Repr, DecidableEq
+
+/-- Runs a history with calls; `stack` is `saved_print_states`.  Like `runKeep`: stops at the first error and
+returns the state reached before the failing instruction. -/
+def runS (st : St) (stack : List PrintState) : List SInstr → St × Option Err
+  | [] => (st, none)
+  | .pushRet :: r => runS st (st.ps :: stack) r
+  | .popRet :: r =>
+    match stack with
+    | ps :: stack' => runS { st with ps := ps } stack' r
+    | [] => runS st [] r
+  | .base i :: r =>
+    match step st i with
+    | .error e => (st, some e)
+    | .ok st' => runS st' stack r
+
+/-- An item of a PRINT list whose evaluation may call function number `f` (which returns `v`). -/
+inductive XArg where
+  | expr (v : Value)
+  | comma
+  | semicolon
+  | call (f : Nat) (v : Value)
+  deriving Repr, DecidableEq
+
+structure XStmt where
+  target : Device
+  format : Option Value
+  args : List XArg
+  deriving Repr, DecidableEq
+
+/-- Lowering of a statement whose items call functions `funcs[f]` (their bodies' PRINT statements): the call is
+`PushRet`, the lowered body, `PopRet`, and then the item's `PrintValueFromA`.  `fuel` bounds the call depth. -/
+def lowerX (funcs : List (List XStmt)) : Nat → XStmt → Option (List SInstr)
+  | 0, _ => none
+  | fuel + 1, s =>
+    let lowerBody (body : List XStmt) : Option (List SInstr) :=
+      body.foldr (fun b acc => match lowerX funcs fuel b, acc with
+        | some x, some y => some (x ++ y)
+        | _, _ => none) (some [])
+    let lowerArgX (a : XArg) : Option (List SInstr) :=
+      match a with
+      | .expr v => some [.base (.valueFromA v)]
+      | .comma => some [.base .comma]
+      | .semicolon => some [.base .semicolon]
+      | .call f v =>
+        match funcs[f]? with
+        | none => none
+        | some body =>
+          match lowerBody body with
+          | none => none
+          | some code => some (.pushRet :: code ++ [.popRet, .base (.valueFromA v)])
+    let items := s.args.foldr (fun a acc => match lowerArgX a, acc with
+        | some x, some y => some (x ++ y)
+        | _, _ => none) (some [])
+    match items with
+    | none => none
+    | some items =>
+      some ((lowerTarget s.target ++ [Instr.setFormatStringFromA (s.format.getD (.int 0))]).map SInstr.base
+        ++ items ++ [.base .printEnd])
+
+def lowerProgramX (funcs : List (List XStmt)) (fuel : Nat) (p : List XStmt) : Option (List SInstr) :=
+  p.foldr (fun s acc => match lowerX funcs fuel s, acc with
+    | some x, some y => some (x ++ y)
+    | _, _ => none) (some [])
 
 end RbModel.Print
